@@ -18,7 +18,17 @@ SPEC = {
             'the direction words 0,1,4,5,8,9 and one odd word (3,6,7,10..13); PrefixCount for 3 prefixes; 9 single List calls with '
             'arbitrary keys (stored, tombstoned, absent, outside the prefix), counts -1..|set|+1 and direction words 0..15 incl. the '
             '"seek" request (count 1, word 2). Unrestricted streams: the prefix whose upper bound is types.EmptyValue (known finding 1) '
-            'and key sets containing the empty key (known finding 2). non-trivial = the implementation returned at least one item / '
+            'and key sets containing the empty key (known finding 2). Long-key stream (guarded): key sets generated the same way around a '
+            'prefix of 119..202 bytes (a run-length encoded stem of 120..200 bytes - lengths 120,124,126..130,132,144,160,200 around the '
+            '128-byte prevKey buffer of mergedIterator - optionally starting with "LODB-", the stem plus 1-2 bytes, or the stem without its '
+            'last byte), so that all keys share the stem and differ in a 0..2 byte suffix; 2 / 3 merged layers with duplicates across '
+            'layers and tombstones in upper layers, 1 merged layer, and the single-database path on GoMemDB and GoLevelDB; listed under '
+            'the generating prefix or a shorter one ("", 1 byte, one byte less); the paging client with every page size 0..|keys|+1 in '
+            'the words 0,1,4,5,8,9 + one odd word, PrefixCount for 3 prefixes, 9 single List calls continuing from stored / tombstoned / '
+            'absent keys. The case text gives the stem once (rl [(byte, count); ...]) and writes byte strings with the markers S / T / U '
+            '(stem, stem without its last 1 / 2 bytes) expanded by hbs in Check.v; CSelf cases compare that notation with plain hex. '
+            'The paging client of the harness stops after fuel_of(layers) = 2 + #stored entries requests; "did not terminate" is the '
+            'observable impl = None, which the spec rejects. non-trivial = the implementation returned at least one item / '
             'a positive count; distinct = distinct Gallina case terms',
     'trusted_base': ['goleveldb (memdb.dbIter, leveldb.dbIter) is an oracle: iterator over util.Range{Start,Limit} = the entries with '
                      'Start <= key < Limit in key order, Seek = first entry >= key, Prev from past-the-end = Last; no I/O or corruption '
